@@ -3,6 +3,7 @@
 -/
 import Jb.Proofs.Engine
 import Jb.Proofs.Excitation
+import Jb.Proofs.SynthBridge
 
 set_option linter.unusedSectionVars false
 
@@ -78,5 +79,34 @@ theorem non_msd_all_voiced (stream : List (StateParam K)) (thr big : K) (hb : th
       subst this
       exact (List.of_mem_zip hxd).1
     rw [← h, hall s hmem]; simp [hb]
+
+/-! ### for the whole library (`Jb/Proofs/SynthBridge.lean`) -/
+
+/-- **C11 from the voice files.** On a well-formed voice set, appending `set_msd_threshold(i, x)` (any `i`, in range or
+    not) to any history leaves the durations and the trajectories of every *other* stream unchanged. -/
+theorem library_threshold_touches_own_stream_only {K : Type} [Field K] [LinearOrder K] [IsStrictOrderedRing K] [FloorRing K]
+    [Transc K] [Consts K] [MlpgConsts K] [FromFile K] (big : K) (voices : List Hts.ParsedVoice) (iw : IW K)
+    (h : Synth.VoicesWF voices iw) (v0 : Hts.ParsedVoice) (hv0 : voices.head? = some v0) (ops : List (CondOp K))
+    (f : Condition K → Bool) (hf : Synth.SpeedOnly f) (labels : List (List Char)) (times : List (K × K))
+    (halign : (Synth.condOf (K := K) v0 ops).alignment = true → times.length = labels.length) (i : Nat) (x : K) :
+    ∃ p p', Synth.params big voices iw ops f labels times = .ok p ∧
+      Synth.params big voices iw (ops ++ [.msd i x]) f labels times = .ok p' ∧
+      p'.durations = p.durations ∧
+      p'.spectrum.length = p.spectrum.length ∧ p'.lf0.length = p.lf0.length ∧ p'.lpf.length = p.lpf.length ∧
+      (i ≠ 0 → p'.spectrum = p.spectrum) ∧ (i ≠ 1 → p'.lf0 = p.lf0) ∧ (i ≠ 2 → p'.lpf = p.lpf) :=
+  Synth.params_msd_other big voices iw h v0 hv0 ops f hf labels times halign i x
+
+/-- … and likewise for `set_gv_weight(i, x)`. -/
+theorem library_gv_weight_touches_own_stream_only {K : Type} [Field K] [LinearOrder K] [IsStrictOrderedRing K] [FloorRing K]
+    [Transc K] [Consts K] [MlpgConsts K] [FromFile K] (big : K) (voices : List Hts.ParsedVoice) (iw : IW K)
+    (h : Synth.VoicesWF voices iw) (v0 : Hts.ParsedVoice) (hv0 : voices.head? = some v0) (ops : List (CondOp K))
+    (f : Condition K → Bool) (hf : Synth.SpeedOnly f) (labels : List (List Char)) (times : List (K × K))
+    (halign : (Synth.condOf (K := K) v0 ops).alignment = true → times.length = labels.length) (i : Nat) (x : K) :
+    ∃ p p', Synth.params big voices iw ops f labels times = .ok p ∧
+      Synth.params big voices iw (ops ++ [.gv i x]) f labels times = .ok p' ∧
+      p'.durations = p.durations ∧
+      p'.spectrum.length = p.spectrum.length ∧ p'.lf0.length = p.lf0.length ∧ p'.lpf.length = p.lpf.length ∧
+      (i ≠ 0 → p'.spectrum = p.spectrum) ∧ (i ≠ 1 → p'.lf0 = p.lf0) ∧ (i ≠ 2 → p'.lpf = p.lpf) :=
+  Synth.params_gv_other big voices iw h v0 hv0 ops f hf labels times halign i x
 
 end Jb.C11
